@@ -31,6 +31,8 @@ def _one(rec, variant):
     from ..rat import f, close
     from ..build import sname
     ns, mr = rec["ns"], rec["m"]
+    from .. import build as _build
+    _build.SNAME_ALT = (variant == 1)      # half of the exports: species S, S2, S3 (one name inside the others)
     names = [sname(i + 1) for i in range(ns)]
     rxs = mr["prog"]["rx"]
     bad, n = [], 0
@@ -108,6 +110,7 @@ def _one(rec, variant):
                             r, formula, float(val), {s: f(xx[k]) for k, s in enumerate(names)}, mode, f(expv[r][i]))])
                         break
     finally:
+        _build.SNAME_ALT = False
         shutil.rmtree(tmp, ignore_errors=True)
     return {"bad": bad[:30], "n": n}
 
